@@ -266,9 +266,22 @@ class RewritingContext:
         self._symbol_retargets: Dict[gtirb.Symbol, gtirb.Symbol] = {}
         self._symbol_deletions: Dict[gtirb.Symbol, SymbolDeletionOptions] = {}
         self._logger = logger
-        self._patch_id = 0
+        self._patch_id = self._last_used_patch_id()
         self._expensive_assertions = expensive_assertions
         self._leaf_functions = self._update_leaf_functions()
+
+    def _last_used_patch_id(self) -> int:
+        """
+        Determines the highest patch id that an earlier rewriting of this
+        module may have used as a suffix for its temporary labels, so that
+        the labels of this context's patches do not get the same names.
+        """
+        last_id = 0
+        for sym in self._module.symbols:
+            _, sep, suffix = sym.name.rpartition("_")
+            if sep and suffix.isdecimal():
+                last_id = max(last_id, int(suffix))
+        return last_id
 
     def _might_be_leaf_function(self, func: gtirb_functions.Function) -> bool:
         """
